@@ -81,10 +81,12 @@ def write_meme(path, motifs, layout=None):
 	return path
 
 
-def write_bed(path, rows):
-	with open(path, "w") as f:
+def write_bed(path, rows, newline="\n", trailing_blank=False):
+	with open(path, "w", newline="") as f:
 		for chrom, s, e in rows:
-			f.write("%s\t%d\t%d\n" % (chrom, s, e))
+			f.write("%s\t%d\t%d%s" % (chrom, s, e, newline))
+		if trailing_blank:
+			f.write(newline)
 	return path
 
 
